@@ -14,9 +14,13 @@ def conditions(prop, tier):
     t = 280 if q else 1500
     out = []
     for ti in range(len(TYPES)):
-        out.append(dict(name='C16.exec.transliteration.t%d' % ti, fn='x_transliteration', fixed=dict(ti=ti, backend=0),
-                        extra_pre=['trap_no <= 1 and a1 <= 1'] if q else [], timeout=t,
-                        bounds=X + 'SMIv1 type spelling %d x access x variables x name form x order; both the v1 module and its transliteration' % ti))
+        if q:
+            out.append(dict(name='C16.exec.transliteration.t%d' % ti, fn='x_transliteration', fixed=dict(ti=ti, backend=0, trap_no=1, a1=1, hy=False),
+                            timeout=t, bounds=X + 'SMIv1 type spelling %d x access x 0-2 variables x order; both the v1 module and its transliteration' % ti))
+        else:
+            for ai in range(4):
+                out.append(dict(name='C16.exec.transliteration.t%d.a%d' % (ti, ai), fn='x_transliteration', fixed=dict(ti=ti, ai=ai, backend=0),
+                                timeout=t, bounds=X + 'SMIv1 type spelling %d, access %d x variables x trap numbers x enterprise arcs x name form x order' % (ti, ai)))
     return out
 
 
